@@ -56,7 +56,25 @@ def _text(perm, hdr, nrows, tab, style_b, yy, mon, corrupt, where):
     return '\n'.join(lines) + '\n', names, model
 
 
+TZS = ['UTC0', 'IST-5:30', 'PST8']       # POSIX time zone strings (no zone database needed): the Unix time column is UTC wherever the program runs
+
+
 def _dat(perm, hdr, nrows, tab, style_b, yy, mon, corrupt, where, eol=0):
+    import time
+    old = os.environ.get('TZ')
+    os.environ['TZ'] = TZS[(perm + hdr + nrows) % 3]
+    time.tzset()
+    try:
+        return _dat_tz(perm, hdr, nrows, tab, style_b, yy, mon, corrupt, where, eol)
+    finally:
+        if old is None:
+            os.environ.pop('TZ', None)
+        else:
+            os.environ['TZ'] = old
+        time.tzset()
+
+
+def _dat_tz(perm, hdr, nrows, tab, style_b, yy, mon, corrupt, where, eol=0):
     text, names, model = _text(perm, hdr, nrows, tab, style_b, yy, mon, corrupt, where)
     # line ends: 0 LF, 1 LF without a final line end, 2 CRLF, 3 CRLF without a final line end
     if eol & 1:
